@@ -58,9 +58,20 @@ func VerifC15_History() {
 	zzAssert(!failed0 && out0 != "", "C15.history.initial-render")
 	version := 0
 	fmv, bodyv := 0, 0
+	loadedMtime := map[string]int64{"pages/page.vuego": 2, "layouts/wrap.vuego": 2, "pages/wrap.vuego": 2}
 	for step := 0; step < L; step++ {
 		version++
-		switch zzChoice("op", 7) {
+		switch zzChoice("op", 8) {
+		case 7: // the page is saved in a broken state (its front-matter does not parse, or its body calls an unknown filter)
+			if _, ok := fsys.files["pages/page.vuego"]; !ok {
+				break
+			}
+			if zzBool("badyaml") {
+				fsys.files["pages/page.vuego"] = "---\ntitle: [unclosed\nlayout: wrap\n---\n<p>broken</p>"
+			} else {
+				fsys.files["pages/page.vuego"] = "---\ntitle: t\nlayout: wrap\n---\n<p>{{ title | nosuchfilter }}</p>"
+			}
+			fsys.mtime["pages/page.vuego"] = int64(30 + version)
 		case 6: // the layout file disappears, or comes back with a later modification time
 			name := "layouts/wrap.vuego"
 			if zzBool("relative") {
@@ -98,6 +109,11 @@ func VerifC15_History() {
 			}
 			newT := int64(zzInt("mtime", 0, 4))
 			zzAssume(newT != fsys.mtime[name]) // equal-mtime edits are outside the claim
+			// ... and so is an edit that brings the modification time back to
+			// that of the version the cache last loaded successfully (the
+			// cache cannot tell the two apart; a broken version in between is
+			// never loaded into it)
+			zzAssume(newT != loadedMtime[name])
 			fsys.files[name] = content
 			fsys.mtime[name] = newT
 		case 2: // delete the page
@@ -112,6 +128,13 @@ func VerifC15_History() {
 		vis = zzBool("vis")
 		got, gotFailed := render(long)
 		want, wantFailed := render(NewFS(fsys))
+		if !wantFailed {
+			for _, n := range []string{"pages/page.vuego", "layouts/wrap.vuego", "pages/wrap.vuego"} {
+				if _, ok := fsys.files[n]; ok {
+					loadedMtime[n] = fsys.mtime[n]
+				}
+			}
+		}
 		zzNote("want", want)
 		zzNote("got", got)
 		zzAssert(gotFailed == wantFailed, "C15.history.error-differs-from-fresh-engine")
